@@ -104,8 +104,8 @@ type Lockset struct {
 	Unmodelled map[string]bool
 
 	collected bool
-	fieldFx  map[*ssa.Function]map[*types.Var]bool // transitive accesses to fields of tracked pointee types: field -> written?
-	paramExt map[*ssa.Function]map[int]bool        // param index -> written? (external interface objects)
+	fieldFx   map[*ssa.Function]map[*types.Var]bool // transitive accesses to fields of tracked pointee types: field -> written?
+	paramExt  map[*ssa.Function]map[int]bool        // param index -> written? (external interface objects)
 }
 
 func rootValue(v ssa.Value) ssa.Value {
